@@ -7,6 +7,7 @@ from ..rateprobe import run_case, updated, common_buckets, exc_detail
 from ..util import KIND
 
 PROPERTY = "C16"
+TECHNIQUE = "runtime monitoring: shadow execution on rescaled (constructor and in-place) and shifted copies of one game"
 LEVEL = "exploration"
 RULE = ("Each base game is re-executed by the real code on (a) a rescaled copy (mu, sigma of every player and the model's "
         "mu, sigma, beta, tau and any per-call tau multiplied by f in {2^k, 10^-3..10^3, log-uniform}) and (b) for games "
